@@ -1,12 +1,30 @@
-import Sucds.Proofs.DP
-/-! # C18 — DacsOpt picks level widths of minimum total size (partial)
+import Sucds.Proofs.DacsOptWidths
+/-! # C18 — DacsOpt picks level widths of minimum total size
 
-Proved over the function-level model of `compute_opt_widths`: the reconstructed split at the first strict
-minimum over the level count costs no more than *every* composition of the bit length into at most `L`
-positive parts (`optimal`), with the cost function of the property. Missing: the glue to the array-level
-model `DacO.optWidths` (checked on every run: cost of the real widths = cost of the model's widths, and
-against brute force over all compositions for bit lengths ≤ 12). -/
+For every build configuration, every non-empty input with values in `usize` (fewer than 2^57 of them, so that
+no cost exceeds `usize::MAX`) and every level limit `1 ≤ L ≤ 64`: the model of `compute_opt_widths` (the arrays
+`nums_ints`, `dp_s`, `dp_b`, the `<=` tie-break, the first strict minimum over the level count, the
+reconstruction loop and its three `assert_eq!`) returns — without any assertion firing — a split of the
+maximum's bit length into at most `L` positive widths whose cost is minimal among **all** such splits, for the
+cost function of the property (`SpecX.dacCost`: (width + 1 continuation flag, none on the last level) ×
+number of values reaching the level). -/
 namespace Sucds.C18
-theorem dp_optimal : type_of% (@DP.optimal) := @DP.optimal
-theorem dp_lower_bound : type_of% (@DP.S_le_cost) := @DP.S_le_cost
+open Sucds
+
+def Statement : Prop :=
+  ∀ (c : Cfg) (vals : List Nat), vals ≠ [] → (∀ v ∈ vals, v < 2^64) → vals.length < 2^57 →
+    ∀ L, 1 ≤ L → L ≤ 64 →
+      ∃ ws, DacO.optWidths c vals L = .ok ws ∧ SpecX.validSplit vals L ws = true ∧
+        ∀ ws', SpecX.validSplit vals L ws' = true → SpecX.dacCost vals ws ≤ SpecX.dacCost vals ws'
+
+theorem holds : Statement := fun c vals hne hv hn L h1 h64 => DacsOptW.optWidths_ok_spec c vals hne hv hn L h1 h64
+
+/-- `validSplit` says what the property says: non-empty, at most `L` parts, all positive, summing to the bit length -/
+theorem valid_split_meaning (vals : List Nat) (L : Nat) (ws : List Nat) :
+    SpecX.validSplit vals L ws = true ↔
+      (ws ≠ [] ∧ ws.length ≤ L ∧ (∀ w ∈ ws, 1 ≤ w) ∧ ws.sum = SpecX.bitlen (vals.foldl max 0)) :=
+  DacsOptW.validSplit_iff vals L ws
+
+-- the earlier hypothesis `DP.Small` was unsatisfiable (found while proving this); the bounded form is used
+theorem earlier_hypothesis_was_vacuous : type_of% (@DPB.not_small) := @DPB.not_small
 end Sucds.C18
